@@ -689,15 +689,12 @@ theorem parseDate_complete {ℓ : Locale} {t : List Char} {serial : Nat} {fmt : 
     simp only [Bool.or_eq_false_iff, decide_eq_false_iff_not, Int.not_lt]
     omega
   rcases hlay with ⟨hu, rfl, rfl, rfl, a1, a2, hf⟩ | ⟨hu, hdf, rfl, rfl, rfl, hf⟩ | ⟨hu, hdf, rfl, rfl, rfl, hf⟩
-  · simp only [hu, beq_self_eq_true, a1, a2, Bool.and_self, Bool.not_true, Bool.and_false, Bool.false_eq_true,
+  · simp only [hu, a1, a2, Bool.and_self, Bool.not_true, Bool.and_false, Bool.false_eq_true,
       if_false, dateFields, if_true, hd, hm, hy, hser, hrange, dateFormat, hf, Int.toNat_natCast]
-  · have hu' : (utf8Len dayS == 4) = false := by simp [hu]
-    simp only [hu', Bool.false_and, Bool.false_eq_true, if_false, dateFields, hdf, if_true, hd, hm, hy, hser,
+  · simp only [hu, Bool.false_and, Bool.false_eq_true, if_false, dateFields, hdf, if_true, hd, hm, hy, hser,
       hrange, dateFormat, hf, Int.toNat_natCast, Bool.not_true]
-  · have hu' : (utf8Len monthS == 4) = false := by simp [hu]
-    simp only [hu', Bool.false_and, Bool.false_eq_true, if_false, dateFields, hdf, hd, hm, hy, hser,
+  · simp only [hu, Bool.false_and, Bool.false_eq_true, if_false, dateFields, hdf, hd, hm, hy, hser,
       hrange, dateFormat, hf, Int.toNat_natCast, Bool.not_false, if_true]
-
 
 /-! ### dates at the top level -/
 
@@ -785,5 +782,120 @@ def monthFmt (t : List Char) : List Char := if t.length = 2 then ['m', 'm'] else
 
 theorem len_ne_nil {t : List Char} (h : t.length = 1 ∨ t.length = 2) : t ≠ [] := by
   intro h0; subst h0; simp at h
+
+/-! ### currency kinds (soundness side) -/
+
+/-- what a currency-prefix result of one loop iteration means -/
+theorem currencyStep_prefix_kind {ℓ : Locale} {v cur c : List Char} {val : Value} {d : Bool}
+    (h : currencyStep ℓ v cur = some (some (val, .currencyPrefix c d))) :
+    c = cur ∧ ∃ n negated p, val = .num n negated false ∧ d = n.hasDot ∧ n.isSci = false ∧
+      stripPrefix (if negated then '-' :: cur else cur) v = some p ∧ parseNumber ℓ.dec ℓ.grp (trim p) = some n := by
+  unfold currencyStep at h
+  split at h
+  · rename_i p hp
+    split at h
+    · cases h
+    · split at h
+      · cases h
+      · rename_i n hn
+        simp only [Option.some.injEq, Prod.mk.injEq] at h
+        obtain ⟨hv, hk⟩ := h
+        cases hs : n.isSci with
+        | true => rw [hs] at hk; simp at hk
+        | false =>
+          rw [hs] at hk; simp at hk
+          exact ⟨hk.1.symm, n, true, p, hv.symm, hk.2.symm, hs, by simpa using hp, hn⟩
+  · split at h
+    · rename_i p hp
+      split at h
+      · cases h
+      · rename_i n hn
+        simp only [Option.some.injEq, Prod.mk.injEq] at h
+        obtain ⟨hv, hk⟩ := h
+        cases hs : n.isSci with
+        | true => rw [hs] at hk; simp at hk
+        | false =>
+          rw [hs] at hk; simp at hk
+          exact ⟨hk.1.symm, n, false, p, hv.symm, hk.2.symm, hs, by simpa using hp, hn⟩
+    · split at h
+      · split at h
+        · cases h
+        · rename_i n hn
+          simp only [Option.some.injEq, Prod.mk.injEq] at h
+          obtain ⟨hv, hk⟩ := h
+          cases hs : n.isSci with
+          | true => rw [hs] at hk; simp at hk
+          | false => rw [hs] at hk; simp at hk
+      · cases h
+
+theorem currencyStep_suffix_kind {ℓ : Locale} {v cur c : List Char} {val : Value} {d : Bool}
+    (h : currencyStep ℓ v cur = some (some (val, .currencySuffix c d))) :
+    c = cur ∧ ∃ n p, val = .num n false false ∧ d = n.hasDot ∧ n.isSci = false ∧
+      stripSuffix cur v = some p ∧ parseNumber ℓ.dec ℓ.grp (trim p) = some n := by
+  unfold currencyStep at h
+  split at h
+  · split at h
+    · cases h
+    · split at h
+      · cases h
+      · rename_i n hn
+        simp only [Option.some.injEq, Prod.mk.injEq] at h
+        obtain ⟨hv, hk⟩ := h
+        cases hs : n.isSci with
+        | true => rw [hs] at hk; simp at hk
+        | false => rw [hs] at hk; simp at hk
+  · split at h
+    · split at h
+      · cases h
+      · rename_i n hn
+        simp only [Option.some.injEq, Prod.mk.injEq] at h
+        obtain ⟨hv, hk⟩ := h
+        cases hs : n.isSci with
+        | true => rw [hs] at hk; simp at hk
+        | false => rw [hs] at hk; simp at hk
+    · split at h
+      · rename_i p hp
+        split at h
+        · cases h
+        · rename_i n hn
+          simp only [Option.some.injEq, Prod.mk.injEq] at h
+          obtain ⟨hv, hk⟩ := h
+          cases hs : n.isSci with
+          | true => rw [hs] at hk; simp at hk
+          | false =>
+            rw [hs] at hk; simp at hk
+            exact ⟨hk.1.symm, n, p, hv.symm, hk.2.symm, hs, hp, hn⟩
+      · cases h
+
+/-- a currency kind can only come out of the currency loop -/
+theorem currency_kind_from_loop {ℓ : Locale} {curs : List (List Char)} {s : List Char} {v : Value} {k : Kind}
+    (h : parseFormattedNumber ℓ curs s = some (v, k))
+    (hk : (∃ c d, k = .currencyPrefix c d) ∨ (∃ c d, k = .currencySuffix c d)) :
+    ∃ cur ∈ curs, currencyStep ℓ (trim s) cur = some (some (v, k)) := by
+  unfold parseFormattedNumber at h
+  simp only at h
+  split at h
+  · split at h
+    · cases h
+    · rename_i n _
+      simp only [Option.some.injEq, Prod.mk.injEq] at h
+      exfalso
+      cases hs : n.isSci <;> rw [hs] at h <;> rcases hk with ⟨c, d, e⟩ | ⟨c, d, e⟩ <;> rw [e] at h <;> simp at h
+  · split at h
+    · rename_i r hr
+      obtain ⟨cur, hm, hstep⟩ := currencyLoop_some hr
+      subst h
+      exact ⟨cur, hm, hstep⟩
+    · split at h
+      · simp only [Option.some.injEq, Prod.mk.injEq] at h
+        exfalso
+        rcases hk with ⟨c, d, e⟩ | ⟨c, d, e⟩ <;> rw [e] at h <;> simp at h
+      · split at h
+        · cases h
+        · rename_i n _
+          simp only [Option.some.injEq, Prod.mk.injEq] at h
+          exfalso
+          cases hs : n.isSci <;> cases hg : n.hasGroups <;> rw [hs] at h <;> (try rw [hg] at h) <;>
+            rcases hk with ⟨c, d, e⟩ | ⟨c, d, e⟩ <;> rw [e] at h <;> simp at h
 
 end IronCalc.Number
